@@ -983,6 +983,77 @@ def _expand_generator_for(gen, call, skip_self, self_expr, target, loop_body) ->
     return pre + out
 
 
+# ---------------------------------------------------------------------------------------------------------- table-driven loops
+MAX_UNROLL = 8
+
+
+def _unroll_table_loops(body: List[ast.stmt], table_of) -> bool:
+    """`for a, b in TABLE: BODY` with TABLE a constant tuple / list display of at most MAX_UNROLL rows (a module-level constant
+    or a local bound once to a display): replaced by one copy of BODY per row, each preceded by `a, b = row`.  `continue`
+    becomes leaving that copy; loops containing `break` or an `else:` are left alone."""
+    changed = False
+    i = 0
+    while i < len(body):
+        st = body[i]
+        for field in ("body", "orelse", "finalbody"):
+            sub = getattr(st, field, None)
+            if isinstance(sub, list) and sub and isinstance(sub[0], ast.stmt) and not isinstance(st, (ast.FunctionDef, ast.AsyncFunctionDef, ast.ClassDef)):
+                changed |= _unroll_table_loops(sub, table_of)
+        if isinstance(st, ast.Try):
+            for h in st.handlers:
+                changed |= _unroll_table_loops(h.body, table_of)
+        if isinstance(st, ast.For) and not st.orelse:
+            rows = table_of(st.iter)
+            if rows is not None and 0 < len(rows) <= MAX_UNROLL:
+                def has(kind, stmts):
+                    for s_ in stmts:
+                        if isinstance(s_, kind):
+                            return True
+                        if isinstance(s_, (ast.For, ast.While, ast.FunctionDef, ast.AsyncFunctionDef, ast.ClassDef)):
+                            continue
+                        for f_ in ("body", "orelse", "finalbody"):
+                            sub_ = getattr(s_, f_, None)
+                            if isinstance(sub_, list) and sub_ and isinstance(sub_[0], ast.stmt) and has(kind, sub_):
+                                return True
+                        if isinstance(s_, ast.Try) and any(has(kind, h.body) for h in s_.handlers):
+                            return True
+                    return False
+                tgt_n = len(st.target.elts) if isinstance(st.target, ast.Tuple) else None
+                shape_ok = all((isinstance(r, (ast.Tuple, ast.List)) and len(r.elts) == tgt_n) if tgt_n is not None else True for r in rows)
+                if not has(ast.Break, st.body) and shape_ok:
+                    new: List[ast.stmt] = []
+                    uses_continue = has(ast.Continue, st.body)
+                    for r in rows:
+                        assign = ast.Assign(targets=[copy.deepcopy(st.target)], value=copy.deepcopy(r))
+                        if tgt_n is not None:
+                            assigns = [ast.Assign(targets=[copy.deepcopy(t)], value=copy.deepcopy(v)) for t, v in zip(st.target.elts, r.elts)]
+                        else:
+                            assigns = [assign]
+                        copy_body = [copy.deepcopy(b) for b in st.body]
+                        if uses_continue:
+                            class _C(ast.NodeTransformer):
+                                def visit_For(self, n):
+                                    return n
+                                visit_While = visit_For
+                                visit_FunctionDef = visit_For
+
+                                def visit_Continue(self, n):
+                                    return ast.copy_location(ast.Break(), n)
+                            copy_body = [_C().visit(b) for b in copy_body]
+                            wrapper = ast.While(test=ast.Constant(value=True), body=copy_body + [ast.Break()], orelse=[])
+                            new += assigns + [wrapper]
+                        else:
+                            new += assigns + copy_body
+                    for x in new:
+                        ast.copy_location(x, st)
+                        ast.fix_missing_locations(x)
+                    body[i:i + 1] = new
+                    changed = True
+                    continue
+        i += 1
+    return changed
+
+
 def normalize_module_trees(modules: Dict[str, ast.Module]) -> List[str]:
     """Inline single-caller private helpers / closures in place. Returns a log of what was inlined."""
     log: List[str] = []
@@ -1012,7 +1083,7 @@ def normalize_module_trees(modules: Dict[str, ast.Module]) -> List[str]:
             if isinstance(n, (ast.FunctionDef, ast.AsyncFunctionDef)):
                 module_funcs.setdefault(n.name, []).append(mn)
 
-    from .known_names import KNOWN_NAMES, KNOWN_CLASSES
+    from .known_names import KNOWN_NAMES, KNOWN_CLASSES, KNOWN_TABLES
 
     def derives(sub: str, base: str, _seen=None) -> bool:
         """does class *sub* (by name) derive from *base* inside the package?"""
@@ -1176,6 +1247,40 @@ def normalize_module_trees(modules: Dict[str, ast.Module]) -> List[str]:
                                 if d and d[0] is not fn and _is_simple_generator(d[0]) and not _calls(d[0], f.attr):
                                     return d[0], True, f.value
                         return None
+                    def table_of(it, mn=mn, fn=fn, cls=cls):
+                        """rows of a constant table display the loop iterates over, or None"""
+                        disp = None
+                        if isinstance(it, (ast.Tuple, ast.List)):
+                            disp = it
+                        elif isinstance(it, ast.Name):
+                            # a local bound exactly once to a display, else a module-level constant of this (or an imported) module
+                            local = [n for n in ast.walk(fn) if isinstance(n, (ast.Assign, ast.AnnAssign)) and any(
+                                isinstance(t, ast.Name) and t.id == it.id for t in (n.targets if isinstance(n, ast.Assign) else [n.target]))]
+                            stores = [n for n in ast.walk(fn) if isinstance(n, ast.Name) and n.id == it.id and isinstance(n.ctx, ast.Store)]
+                            if len(local) == 1 and len(stores) == 1 and isinstance(local[0].value, (ast.Tuple, ast.List)):
+                                disp = local[0].value
+                            elif not stores and it.id not in [a.arg for a in fn.args.args + fn.args.kwonlyargs]:
+                                for m2n, m2 in modules.items():
+                                    if m2n != mn and it.id not in module_imports.get(mn, ()):
+                                        continue
+                                    for n in m2.body:
+                                        if isinstance(n, (ast.Assign, ast.AnnAssign)) and n.value is not None and any(
+                                                isinstance(t, ast.Name) and t.id == it.id for t in (n.targets if isinstance(n, ast.Assign) else [n.target])):
+                                            if isinstance(n.value, (ast.Tuple, ast.List)) and it.id not in KNOWN_TABLES:
+                                                disp = n.value
+                        elif isinstance(it, ast.Attribute) and isinstance(it.value, ast.Name) and cls is not None and it.value.id in ("self", "cls", cls.name):
+                            for n in cls.body:
+                                if isinstance(n, (ast.Assign, ast.AnnAssign)) and n.value is not None and any(
+                                        isinstance(t, ast.Name) and t.id == it.attr for t in (n.targets if isinstance(n, ast.Assign) else [n.target])):
+                                    if isinstance(n.value, (ast.Tuple, ast.List)) and it.attr not in KNOWN_TABLES:
+                                        disp = n.value
+                        if disp is None or any(isinstance(e, ast.Starred) for e in disp.elts):
+                            return None
+                        return list(disp.elts)
+                    if _unroll_table_loops(fn.body, table_of):
+                        any_change = True
+                        log.append("%s.%s: loop over a constant table unrolled" % (cls.name if cls else mn, fn.name))
+                        ast.fix_missing_locations(fn)
                     if _rewrite_generator_loops(fn.body, find_gen):
                         any_change = True
                         log.append("%s.%s: new generator(s) unfolded into the consuming loop" % (cls.name if cls else mn, fn.name))
